@@ -17,6 +17,17 @@ class Frame:
         self.pos, self.valid = pos, valid
 
 
+class FalsyFrame(Frame):
+    """a frame object that is falsy (like 0, 0.0, b"" or an empty list would be): still a frame, not the end of the stream"""
+    __slots__ = ()
+
+    def __bool__(self):
+        return False
+
+    def __len__(self):
+        return 0
+
+
 class Src:
     def __init__(self, frames):
         self.frames = frames
@@ -57,8 +68,11 @@ def make_tokenizer(core, P, mode, with_init, val=validator):
     return core.StreamTokenizer(val, SymInt(P["mn"]), SymInt(P["mx"]), SymInt(P["ms"]), mode=mode, **kw)
 
 
+FRAME_CLASS = [Frame]
+
+
 def sym_frames(N, prefix="v"):
-    return [Frame(i, SymBool(z3.Bool("%s%d" % (prefix, i)))) for i in range(N)]
+    return [FRAME_CLASS[0](i, SymBool(z3.Bool("%s%d" % (prefix, i)))) for i in range(N)]
 
 
 def cex_from_model(m, N, P, mode, with_init, extra=None):
@@ -94,21 +108,23 @@ def describe(c):
     s = "StreamTokenizer(min_length=%d, max_length=%d, max_continuous_silence=%d" % (c["min_length"], c["max_length"], c["mcs"])
     if c.get("init_min") or c.get("init_max_silence"):
         s += ", init_min=%d, init_max_silence=%d" % (c["init_min"], c["init_max_silence"])
-    return s + ", mode=%d) on '%s'" % (c["mode"], stream_str(c["valid"]))
+    return s + ", mode=%d) on '%s'%s" % (c["mode"], stream_str(c["valid"]), " (frames are falsy objects)" if c.get("falsy") else "")
 
 
 def replay_tokens(c, delivery="list"):
     ak = loader.real_auditok()
     return oracles.run_tokenizer(ak, c["valid"], c["min_length"], c["max_length"], c["mcs"], c.get("init_min", 0),
-                                 c.get("init_max_silence", 0), c["mode"], delivery)
+                                 c.get("init_max_silence", 0), c["mode"], delivery, falsy=bool(c.get("falsy")))
 
 
 # --------------------------------------------------------------- bounded runs
-def bmc_harness(core, N, mode, with_init, oblig, delivery="list"):
+def bmc_harness(core, N, mode, with_init, oblig, delivery="list", falsy=False):
     """oblig(ctx) -> dict of named conditions; ctx: frames, toks, src, P, mode, e"""
     def path(e):
         P = sym_params(e, with_init)
+        FRAME_CLASS[0] = FalsyFrame if falsy else Frame
         frames = sym_frames(N)
+        FRAME_CLASS[0] = Frame
         tk = make_tokenizer(core, P, mode, with_init)
         src = Src(frames)
         out = {}
@@ -123,23 +139,23 @@ def bmc_harness(core, N, mode, with_init, oblig, delivery="list"):
         except Exception as ex:
             m = e.model()
             return {"status": "cex", "failing": ["raised %s: %s" % (type(ex).__name__, str(ex)[:80])],
-                    "cex": cex_from_model(m, N, P, mode, with_init) if m is not None else None}
+                    "cex": cex_from_model(m, N, P, mode, with_init, {"falsy": True} if falsy else None) if m is not None else None}
         ctx = dict(frames=frames, toks=toks, src=src, P=P, mode=mode, e=e, N=N, with_init=with_init, tk=tk)
         conds = oblig(ctx)
-        r = discharge(e, conds, lambda m: cex_from_model(m, N, P, mode, with_init))
+        r = discharge(e, conds, lambda m: cex_from_model(m, N, P, mode, with_init, {"falsy": True} if falsy else None))
         r["tokens"] = len(toks)
         r["shape"] = [(int(s) if isinstance(s, int) else str(s), int(en) if isinstance(en, int) else str(en)) for _, s, en in toks][:6]
         return r
     return path
 
 
-def run_bmc(rep, core, name, N, modes, inits, oblig, replay_fn, delivery="list", timeout_ms=20000, deadline_s=None):
+def run_bmc(rep, core, name, N, modes, inits, oblig, replay_fn, delivery="list", timeout_ms=20000, deadline_s=None, falsy=False):
     """explores every (mode, init) configuration; replays each distinct counterexample class.
     replay_fn(cex) -> list of (key, what) failures observed on the real code (empty if not reproduced)."""
     for with_init in inits:
         for mode in modes:
             hn = "%s[N<=%d,mode=%d,%s]" % (name, N, mode, "init" if with_init else "noinit")
-            ex = explore(bmc_harness(core, N, mode, with_init, oblig, delivery), timeout_ms=timeout_ms,
+            ex = explore(bmc_harness(core, N, mode, with_init, oblig, delivery, falsy), timeout_ms=timeout_ms,
                          deadline_s=deadline_s)
             rep.add_exploration(hn, ex, bounds={"frames": N, "mode": mode, "initial_phase_symbolic": with_init})
             handle_cex(rep, hn, ex, replay_fn)
